@@ -160,8 +160,10 @@ def anonymise(msg, sc):
             .replace(os.path.realpath(sc["inc"]), "<inc>").replace(sc["dir"], "<tmp>"))
 
 
-def run_cell(cfile, std, form, sc):
-    """-> (problem or None, info).  problem = (signature, detail)."""
+def run_cell(cfile, std, form, sc, reference=True):
+    """-> (problem or None, info).  problem = (signature, detail).
+    reference=False (ordered pairs): the by-hand pipeline is run only when
+    parse_file raised, to name the root cause; the oracle is 'returns a FileAST'."""
     from pycparser import parse_file
 
     if form == "list":
@@ -178,6 +180,11 @@ def run_cell(cfile, std, form, sc):
         got = ("rec",)
     except Exception as e:  # noqa
         got = ("exc", type(e).__name__, anonymise(e, sc))
+    if got[0] == "ok" and not reference:
+        info = {"ast": got[1] if hasattr(got[1], "ext") else None}
+        if info["ast"] is None:
+            return (f"parse_file:returned-{type(got[1]).__name__}", f"-std={std} {form} form"), info
+        return None, info
     r = subprocess.run(manual, capture_output=True, text=True)
     if r.returncode != 0:
         ref = ("cpp-failed", anonymise(r.stderr.strip(), sc))
@@ -222,9 +229,11 @@ def _grid_work(task):
     nontrivial = 0
     hashes = set()
     ext_counts = {}
-    for hdrs, cfile, std, form in cells:
-        prob, info = run_cell(cfile, std, form, sc)
+    compared = 0
+    for hdrs, cfile, std, form, ref in cells:
+        prob, info = run_cell(cfile, std, form, sc, reference=ref)
         n += 1
+        compared += ref and info["ast"] is not None
         if info["ast"] is not None:
             k = len(info["ast"].ext)
             if k:
@@ -234,7 +243,7 @@ def _grid_work(task):
                 ext_counts[hdrs[0]] = k
         if prob:
             fails.append((prob[0], {"headers": hdrs, "std": std, "form": form}, prob[1]))
-    return n, fails, nontrivial, hashes, ext_counts
+    return n, fails, nontrivial, hashes, ext_counts, compared
 
 
 def sweep_problems(ast, names, std_macros):
@@ -328,27 +337,29 @@ def _run(R, tier, hs, S):
         cf = S.cfile(f"one_{i}.c", [h])
         for std in STDS:
             for form in FORMS:
-                cells.append(([h], cf, std, form))
+                cells.append(([h], cf, std, form, True))
     all_fwd = S.cfile("all_forward.c", hs)
     all_rev = S.cfile("all_reversed.c", list(reversed(hs)))
     multi = []
     for std in STDS:
         for form in FORMS:
-            multi.append((["<all, directory order>"], all_fwd, std, form))
-            multi.append((["<all, reversed>"], all_rev, std, form))
+            multi.append((["<all, directory order>"], all_fwd, std, form, True))
+            multi.append((["<all, reversed>"], all_rev, std, form, True))
     pairs = []
     if tier == "thorough":
         for i, a in enumerate(hs):
             for j, b in enumerate(hs):
                 cf = S.cfile(f"pair_{i}_{j}.c", [a, b])
-                pairs.append(([a, b], cf, "c99", "list"))
+                pairs.append(([a, b], cf, "c99", "list", False))
     n_total = 0
     nontriv = 0
     hashes = set()
     ext_counts = {}
     tasks = [(sc, ch) for ch in core.chunked(cells, 12)] + [(sc, [m]) for m in multi] + [(sc, ch) for ch in core.chunked(pairs, 40)]
-    for n, fl, nt, hsh, ec in core.pmap(_grid_work, tasks, chunksize=1):
+    compared = 0
+    for n, fl, nt, hsh, ec, cmpd in core.pmap(_grid_work, tasks, chunksize=1):
         n_total += n
+        compared += cmpd
         nontriv += nt
         hashes |= hsh
         ext_counts.update(ec)
@@ -380,8 +391,9 @@ def _run(R, tier, hs, S):
     R.set("distinct_nontrivial", nontriv)
     R.set("states", len(hs))
     R.set("transitions", n_total)
-    R.set("traces_validated_against_impl", n_total)
+    R.set("traces_validated_against_impl", compared + sweeps_ok)
     R.set("distinct_outcomes", len(hashes))
+    R.set("results_compared_with_by_hand_pipeline", compared + sweeps_ok)
     R.set("headers_found", len(hs))
     R.set("typedef_names_per_file", per_file)
     R.set("typedef_names_distinct", len(names))
@@ -406,9 +418,10 @@ def _run(R, tier, hs, S):
     return R.finish(
         samples,
         "every header x 4 dialects x 2 cpp_args forms through parse_file(use_cpp=True); all headers in one file "
-        "forward and reversed x 4 x 2; the typedef sweep x 4 x 2; thorough: every ordered pair of headers. Each "
-        "result compared (canon with coordinates) with CParser().parse(output of the same cpp command run by "
-        "hand). non-trivial = runs whose AST has at least one top-level node",
+        "forward and reversed x 4 x 2; the typedef sweep x 4 x 2; thorough: every ordered pair of headers (c99, list form; "
+        "oracle: returns a FileAST). Each grid / all-in-one / sweep result compared (canon with coordinates) with "
+        "CParser().parse(output of the same cpp command run by hand). non-trivial = runs whose AST has at least "
+        "one top-level node",
     )
 
 
